@@ -3,6 +3,7 @@ from vf import Check, Stream, REPO
 
 CAPS = [1, 2, 3, 7, 64, 500]
 KINDS = ['hm', 'hs', 'pm']
+SELF_ASSIGN = [False]     # set by streams(): are x = x histories generated (see self_assign_enabled)
 
 
 def hexs(b):
@@ -169,7 +170,7 @@ def gen_ops(rng, kd, kt, nv, sizes_hint, uni, nops, profile, bad=0.0):
         else:
             if rng.random() < bad:
                 y = rng.choice([y, nv, nv + 1])
-            if o == 'assign' and x == y:
+            if o == 'assign' and x == y and not SELF_ASSIGN[0]:
                 # x = x empties the container on the unchanged code: that is the C04 finding
                 # (DESIGN section 5 row 2) and is kept out of this property's streams
                 continue
@@ -228,8 +229,8 @@ class C02(Check):
                   'size, rank < size, non-empty for front/back/removeFront/removeBack, capacity >= 0) are modelled as "call not '
                   'made". Key equality is assumed to be a decidable Leibniz equality (true of int32/int64/String). x = x: the '
                   'model carries the self-assignment guard (as if repaired); the unrepaired HashMap/HashSet::operator= empty the '
-                  'container on x = x - this is accounted under C04 (DESIGN section 5 row 2) and self-assignment histories are '
-                  'generated only with VERIF_C02_SELF_ASSIGN=1. Value type int / default-constructed 77 for PoolMap; element '
+                  'container on x = x - this is accounted under C04 (DESIGN section 5 row 2); self-assignment histories are '
+                  'generated when the tree carries the guard or with VERIF_C02_SELF_ASSIGN=1. Value type int / default-constructed 77 for PoolMap; element '
                   'construction/destruction counts belong to C04.')
     rule = ('case = history of up to ~70 operations over 1-3 container variables of one kind (HashMap<K,int>, HashSet<K>, '
             'PoolMap<K,Val>), K in {int32,int64,String}, capacities from {0,1,2,3,7,64,500}; streams: mixed, collide (capacity '
@@ -266,6 +267,7 @@ class C02(Check):
     def streams(self, tier, rng):
         thorough = tier == 'thorough'
         mul = 6 if thorough else 1
+        SELF_ASSIGN[0] = self.self_assign_enabled()
         out = []
 
         def header(kd, kt, caps):
@@ -302,8 +304,10 @@ class C02(Check):
                           note='case splits of the proofs: every chain position x every removal method, then the chain neighbours; '
                                'swap of tables of sizes 0..3 followed by use of both; order/value/prefix-sensitive ==; present key '
                                'at every position x insert flavour'))
-        if os.environ.get('VERIF_C02_SELF_ASSIGN') == '1':
-            out.append(Stream('selfassign', self.self_assign_cases(), note='x = x (C04 finding; off by default)'))
+        if self.self_assign_enabled():
+            out.append(Stream('selfassign', self.self_assign_cases(),
+                              note='x = x; generated when VERIF_C02_SELF_ASSIGN=1 or when operator= of HashMap and HashSet '
+                                   'carries a self-assignment guard (the unguarded operator= is the C04 finding)'))
         out.append(Stream('exhaustive', self.exhaustive_cases(4 if thorough else 3), exhaustive=True,
                           note='every history of length <= %d over a 13-op alphabet, 2 variables, capacities 1 and 2, keys {0,1,2}' % (4 if thorough else 3)))
         return out
@@ -431,6 +435,20 @@ class C02(Check):
                         cases.append([h] + build + ['app 1 %s 0' % keys[2], 'app 1 %s 0' % keys[5], 'app 1 %s 0' % keys[0], 'appall 0 1',
                                                     'find 0 ' + keys[5], 'rmall 0 1', 'find 0 ' + keys[1], 'rmall 0 0', 'appall 0 1', 'appall 1 1'])
         return cases
+
+    def self_assign_enabled(self):
+        e = os.environ.get('VERIF_C02_SELF_ASSIGN')
+        if e in ('0', '1'):
+            return e == '1'
+        try:
+            for f in ('HashMap', 'HashSet'):
+                txt = open(os.path.join(REPO, 'include', 'nstd', f + '.hpp')).read()
+                m = re.search(r'operator=\(const %s& other\)\s*\{(.*?)clear\(\);' % f, txt, flags=re.S)
+                if not m or 'this' not in m.group(1):
+                    return False
+            return True
+        except OSError:
+            return False
 
     def self_assign_cases(self):
         cases = []
